@@ -616,8 +616,10 @@ class ManifestContext:
             code, pos = item
             if isinstance(pos, int):
                 drop_seg = pos
-            elif availabilityStartTime is None:
-                # a time of day only has a meaning for a live stream
+            elif not isinstance(availabilityStartTime, datetime.datetime):
+                # a time of day only has a meaning for a live stream. (The
+                # value is None, or a symbolic start, when it has not been
+                # resolved by DashTiming)
                 continue
             else:
                 if isinstance(pos, str):
